@@ -94,7 +94,7 @@ var realComponents = []string{"github.com/zclconf/go-cty/cty (instrumented copy 
 
 var props = map[string]*propCfg{
 	"C20": {race: true, quickRuns: 1 << 40, quickBudget: 55 * time.Second, thorBudget: 10 * time.Minute, thorRuns: 1 << 40, level: "exploration", procShrink: 60,
-		rule: "one evaluation = one simulated world: a shared pool of 6..40 generated values (all kinds, marks, refined unknowns, capsules, collision-prone sets), types, shared ValueSets/PathSets and paths; 2..16 caller tasks each running a seeded history of 3..35 operations drawn from a per-run random subset of ~75 operations over the public API (operation methods, accessors followed by mutation of the returned Go data, constructors followed by mutation of the data passed in, ValueSet/PathSet copy-and-diverge life cycles, refinement builders reused after NewValue, Walk/Transform/Path.Apply, convert, stdlib function calls, JSON/msgpack/gocty round trips). The same programs are executed five times: sequentially (fingerprints of every pre-existing object re-checked after every operation), sequentially again (purity), sequentially under another map-iteration order, and twice concurrently under the seeded baton scheduler (random / PCT / round-robin / call-granular strategies) with the Go race detector watching. Every run is non-trivial (it fires aliasing faults and context switches); distinct = distinct (tasks, operations, pool size, multiset of fired fault kinds).",
+		rule: "one evaluation = one simulated world: a shared pool of 6..40 generated values (all kinds, marks, refined unknowns, capsules, collision-prone sets), types, shared ValueSets/PathSets and paths; 2..16 caller tasks each running a seeded history of 3..35 operations drawn from a per-run random subset of ~80 operations over the public API (operation methods, accessors followed by mutation of the returned Go data, constructors followed by mutation of the data passed in - the fresh result frozen before the mutation and compared after it -, ValueSet/PathSet copy-and-diverge life cycles, refinement builders reused after NewValue, Walk/Transform/Path.Apply, convert, conversions obtained once and shared by all tasks, stdlib function calls incl. a type-directed call table over every stdlib function, JSON/msgpack/gocty round trips). The same programs are executed five times: sequentially (fingerprints of every pre-existing object re-checked after every operation), sequentially again (purity), sequentially under another map-iteration order, and twice concurrently under the seeded baton scheduler (random / PCT / round-robin / call-granular strategies) with the Go race detector watching. Every run is non-trivial (it fires aliasing faults and context switches); distinct = distinct (tasks, operations, pool size, multiset of fired fault kinds).",
 		assumptions: []string{"race detection is the Go race detector's happens-before analysis with history_size=7; sync.Pool and math/big's divisor-table lock are replaced in the simulation build only so that they do not order unrelated tasks (DESIGN.md §3.3)",
 			"data whose ownership the documentation passes to the library (NumberVal's big.Float, Tuple/Object type arguments, a path placed in a PathSet) is never mutated by the harness",
 			"error and panic texts and GoString of values with several marks may list members in map order; they are compared by class only",
@@ -107,21 +107,21 @@ var props = map[string]*propCfg{
 			"iteration order is compared only between wholly-known capsule-free sets with the same canonical members; which representative of an equivalence class a set keeps is not constrained"},
 		stubs: []string{"caller of the set API (seeded history)", "capsule equality/hash operations"}},
 	"C10": {quickRuns: 1 << 40, quickBudget: 30 * time.Second, thorBudget: 9 * time.Minute, thorRuns: 1 << 40, level: "exploration",
-		rule: "one evaluation = one simulated run: one generated function specification (0..3 positional parameters and an optional variadic one, each with one of 13 type constraints incl. nested placeholders and every combination of the four allow flags; a type-check callback that is static, derived from the arguments, dynamic, fails or panics; an implementation callback that returns a conforming, marked, unknown, null or non-conforming value, fails or panics; optional result refinement) exercised by 4..15 calls through Call, Proxy, Unpredictable, WithNewDescriptions, ReturnType and ReturnTypeForValues with argument lists of every length around the arity mixing 8 argument kinds (conforming, deeply marked, non-conforming, null, null of unknown type, unknown incl. refined, DynamicVal, known with unknown/null members). Spies record the callback history; a protocol model derives the set of acceptable outcomes from the specification and the argument descriptions only. Every run is non-trivial (callbacks are the injected party); distinct = distinct (parameter count, variadic, callback behaviours, refinement, multiset of fired fault kinds).",
+		rule: "one evaluation = one simulated run: one generated function specification (0..3 positional parameters and an optional variadic one, each with one of 13 type constraints incl. nested placeholders and every combination of the four allow flags; a type-check callback that is static, derived from the arguments, dynamic, partly dynamic (the placeholder nested inside a structure), fails or panics; an implementation callback that returns a conforming, marked, unknown, null or non-conforming value (another type altogether, or a structure breaking one concrete part of the checked type), fails or panics; optional result refinement) exercised by 4..15 calls through Call, Proxy, Unpredictable, WithNewDescriptions, ReturnType and ReturnTypeForValues with argument lists of every length around the arity mixing 8 argument kinds (conforming, deeply marked, non-conforming, null, null of unknown type, unknown incl. refined, DynamicVal, known with unknown/null members). Spies record the callback history; a protocol model derives the set of acceptable outcomes from the specification and the argument descriptions only. Every run is non-trivial (callbacks are the injected party); distinct = distinct (parameter count, variadic, callback behaviours, refinement, multiset of fired fault kinds).",
 		assumptions: []string{"when a call has both a disallowed dynamically-typed argument and another offending argument, the argument error and the unknown-of-unknown-type result are both acceptable (type checking stops at the first dynamically-typed argument)",
 			"'unknown' in the contract is unknown at the top level of an argument; nested unknowns reach the implementation by design",
 			"a panic raised by a RefineResult that contradicts the implementation's own result (null under NotNull) escapes Call by documented design",
 			"marks of arguments whose parameter allows marks may or may not appear on a short-circuit result; marks of the others must"},
 		stubs: []string{"function author: Type, Impl and RefineResult callbacks (spies with injected failures)", "caller (seeded argument lists)"}},
 	"C19": {quickRuns: 1 << 40, quickBudget: 35 * time.Second, thorBudget: 9 * time.Minute, thorRuns: 1 << 40, level: "exploration",
-		rule: "one evaluation = one simulated run of one of three simulations: (walk) a generated value (all kinds to depth 3, or deep-and-narrow to depth 5; null, unknown, refined and marked members at every depth; sets) walked with a spying callback that may prune drawn subtrees or fail at a drawn member, then transformed (identity with Enter/Exit spies, replacement of one drawn member by another value of its type, or a failing callback), then unmarked with paths and re-marked in a drawn order, then passed through UnknownAsNull - all judged against the generator's own model tree; (apply) 4..11 paths built step by step through the model, half of them damaged at a drawn step (wrong step kind, index out of range, negative or fractional index, missing key or attribute, step through null, step into a set), applied to the value; (pathsets) a history of 10..59 PathSet operations over up to 4 sets and a pool of 3..20 paths whose steps collide on purpose (every index step hashes alike, an attribute named like the index placeholder, the same number in several representations, composed and decomposed keys) against a model set of canonical renderings. A run is non-trivial when the value has more than one member or at least one set operation ran; distinct = distinct (type, member count | pool size, multiset of fired fault kinds).",
+		rule: "one evaluation = one simulated run of one of three simulations: (walk) a generated value (all kinds to depth 3, or deep-and-narrow to depth 5; null, unknown, refined and marked members at every depth; sets) walked with a spying callback that may prune drawn subtrees or fail at a drawn member, then transformed (identity with Enter/Exit spies, replacement of one drawn member by another value of its type from the Exit or the Enter side, or a callback failing in Exit or in Enter), then unmarked with paths and re-marked in a drawn order, again with the same list, and with drawn subsets of it, then passed through UnknownAsNull - all judged against the generator's own model tree; (apply) 4..11 paths built step by step through the model, also through the path constructors, half of them damaged at a drawn step (wrong step kind, index out of range, negative or fractional index, missing key or attribute, step through null, step into a set; the damaged step last or followed by another), applied to the value and asked for their LastStep; (pathsets) a history of 10..59 PathSet operations over up to 4 sets and a pool of 3..20 paths whose steps collide on purpose (every index step hashes alike, an attribute named like the index placeholder, the same number in several representations, composed and decomposed keys) against a model set of canonical renderings. A run is non-trivial when the value has more than one member or at least one set operation ran; distinct = distinct (type, member count | pool size, multiset of fired fault kinds).",
 		assumptions: []string{"sibling order is not promised: histories are checked for each-member-once and parent-before/after-child only",
 			"Path.Apply adds the marks of every container it passes through: the member is compared mark-stripped, with marks a superset of its own and a subset of the value's",
 			"paths whose keys are unknown or marked, and steps through unknown containers, are outside the oracle (documented as unsupported); attribute steps use normalized names",
 			"two indistinguishable unknown members of one set would share one path; generated values keep one of them"},
 		stubs: []string{"Walk / Transform callbacks and Transformer (spies with injected prune, failure, replacement)", "caller of the PathSet API (seeded history)"}},
 	"C17": {quickRuns: 1 << 40, quickBudget: 30 * time.Second, thorBudget: 9 * time.Minute, thorRuns: 1 << 40, level: "exploration", procShrink: 40, rlimitAS: 3 << 30, runTimeout: 30 * time.Second,
-		rule: "one evaluation = one simulated store round trip: 2..5 records are written (valid JSON encodings of generated values under generalized type constraints, MessagePack encodings with unknowns refined in every way and dynamic wrappers at any depth, JSON type descriptions with placeholders and optional attributes, noise over an alphabet of header bytes and JSON punctuation, hand-made extension records with 30 hostile refinement bodies and 19 bare headers with absurd lengths); one record is read back after 1..4 storage faults drawn from a per-run random subset of 11 kinds (bit flip, overwrite with a meaningful byte, torn write, lost sector, duplicated sector, misdirected read splicing a fragment of another record, zero fill, length-field edit guided by the checker's own MessagePack scanner, JSON token damage (kind swap, dropped delimiter, duplicated key, nesting up to 4000 deep, number respelling, token swap, object/array confusion), replacement of an item by a hostile refinement record, replacement by a bare header) - or undamaged in the 10% control group - through all five decoders with a target type equal to, derived from (12 edit kinds) or unrelated to the original; every implied type is fed back as a decoding target. A run is non-trivial when at least one fault changed the record or the record is noise / hand-made; distinct = distinct (codec, relation of the target type, sequence of fired faults).",
+		rule: "one evaluation = one simulated store round trip: 2..5 records are written (valid JSON encodings of generated values, capsule payloads included, under generalized type constraints, a quarter of them structures whose members share one type, MessagePack encodings with unknowns refined in every way and dynamic wrappers at any depth, JSON type descriptions with placeholders and optional attributes, noise over an alphabet of header bytes and JSON punctuation, hand-made extension records with 30 hostile refinement bodies and 19 bare headers with absurd lengths); one record is read back after 1..4 storage faults drawn from a per-run random subset of 13 kinds (bit flip, overwrite with a meaningful byte, torn write, lost sector, duplicated sector, misdirected read splicing a fragment of another record, zero fill, length-field edit guided by the checker's own MessagePack scanner, JSON token damage (kind swap, dropped delimiter, duplicated key, nesting up to 4000 deep, number respelling, token swap, object/array confusion), replacement of an item by a hostile refinement record, replacement by a bare header, a key or string item overwritten by a copy of a sibling) - or undamaged in the 10% control group, which is always read with the encoding type - through all five decoders with a target type equal to, derived from (12 edit kinds) or unrelated to the original; every implied type is fed back as a decoding target. A run is non-trivial when at least one fault changed the record or the record is noise / hand-made; distinct = distinct (codec, relation of the target type, sequence of fired faults).",
 		assumptions: []string{"memory bound: every make() in go-cty's decoder packages (seam inserted by the instrumenter) may request at most 64 KiB + 4096 x record size in total, and total allocation measured by the runtime (confirmed with exact accounting) at most 4 MiB + 16384 x record size; the constant covers the fixed 1 MB read chunk of vmihailenco/msgpack; both over-approximate peak use",
 			"decimal exponents beyond 10^6 (10^-4) in a damaged record are cut to that many digits before decoding: go-cty compares and hashes numbers through their full decimal expansion, so rendering larger ones takes minutes per operation (the effect is already reported at 10^6 through its memory footprint, see known_findings.txt)",
 			"conformance of a result to the requested type is go-cty's TestConformance, which disregards optional-attribute annotations as the property says",
@@ -129,13 +129,13 @@ var props = map[string]*propCfg{
 			"worker processes run under a 3 GiB address-space limit so that an absurd allocation is a deterministic death, attributed to the record through the tape dumped before decoding"},
 		stubs: []string{"record store with fault injection (the library is handed complete byte slices; it has no I/O of its own)", "writers and readers (seeded)"}},
 	"C06": {quickRuns: 1 << 40, quickBudget: 40 * time.Second, thorBudget: 9 * time.Minute, thorRuns: 1 << 40, level: "exploration",
-		rule: "one evaluation = one simulated run of the monitor's own workload: a generated world (6..40 pool values of all kinds with marks, nulls, refined unknowns, capsules, collision-prone sets; types with placeholders and optional attributes; shared ValueSets) on which 20..79 operations drawn from the whole C20 operation table (~75 operations over the public API) and 10..39 constructor / conversion calls on awkward arguments (unnormalised keys, two spellings of one key, typed members next to placeholders, already-marked members, empty collections, conversion targets derived from the value's own type by kind swaps, placeholders, optional attributes, dropped and added attributes) are executed sequentially; every returned value and the members reached from it by iteration go through the well-formedness monitor (public accessor walk + tag-guarded internal check). The monitor additionally runs inside every other check (C03, C05, C10, C17, C19, C20), where a failure is reported as a C06 violation with that check's replay file. Every run is non-trivial; distinct = distinct (pool size, operation count, constructor count, multiset of fired kinds). values_checked_wellformed and wellformed_by_producer report what was checked per producing entry point.",
+		rule: "one evaluation = one simulated run of one of the monitor's own two workloads: (conversions) one generated source value with null / unknown / refined / empty / marked members converted to 1..3 targets derived from its own type by several edits at once (kind swaps between sequence kinds and between mapping kinds, optional attributes on every object, extra optional attributes, dropped attributes, primitives turned into other primitives or the placeholder) through Convert, GetConversion, GetConversionUnsafe and the conversions UnifyUnsafe hands out, each result converted once more; or (monitor) a generated world (6..40 pool values of all kinds with marks, nulls, refined unknowns, capsules, collision-prone sets; types with placeholders and optional attributes; shared ValueSets) on which 20..79 operations drawn from the whole C20 operation table (~75 operations over the public API) and 10..39 constructor / conversion calls on awkward arguments (unnormalised keys, two spellings of one key, typed members next to placeholders, already-marked members, empty collections, conversion targets derived from the value's own type by kind swaps, placeholders, optional attributes, dropped and added attributes) are executed sequentially; every returned value and the members reached from it by iteration go through the well-formedness monitor (public accessor walk + tag-guarded internal check). The monitor additionally runs inside every other check (C03, C05, C10, C17, C19, C20), where a failure is reported as a C06 violation with that check's replay file. Every run is non-trivial; distinct = distinct (pool size, operation count, constructor count, multiset of fired kinds). values_checked_wellformed and wellformed_by_producer report what was checked per producing entry point.",
 		assumptions: []string{"NullVal / UnknownVal / gocty.ToCtyValue given a type constraint that itself carries optional attributes return a value of that type as given; passing such a type to a constructor is caller misuse (the annotations are documented as meaningful only as conversion targets) and is not generated",
 			"a collection may be built from placeholder-typed members next to typed ones; the placeholder is allowed exactly for unknown or null members and wholly-placeholder collections, as the constructors document",
 			"conformance of conversion results to their target is property C08 (not decided by this work): the monitor counts it in a probe and never reports it"},
 		stubs: []string{"caller (seeded operation and constructor sequences)", "capsule operations"}},
 	"C05": {quickRuns: 1 << 40, quickBudget: 30 * time.Second, thorBudget: 9 * time.Minute, thorRuns: 1 << 40, level: "exploration",
-		rule: "one evaluation = one simulated run: either a seeded history of 1..12 refinement-builder calls with interleaved NewValue snapshots (builder reused after a snapshot, or refining restarted from a snapshot; rejected calls are the injected contradictions) checked call by call against an interval/nullness/prefix/length model with 8 membership candidates, or one generated string cut at every rune boundary with 5 continuations each. A run is non-trivial when at least one builder call was accepted or more than one cut was examined; distinct = distinct (start type and kind | string, multiset of fired fault kinds) among non-trivial runs.",
+		rule: "one evaluation = one simulated run: either a seeded history of 1..12 refinement-builder calls with interleaved NewValue snapshots (builder reused after a snapshot, or refining restarted from a snapshot; rejected calls are the injected contradictions) checked call by call against an interval/nullness/prefix/length model with 8 membership candidates (the range of the start value itself - known, null, dynamic or never refined - is judged before the first call), or one generated string cut at every rune boundary with 5 continuations each. A run is non-trivial when at least one builder call was accepted or more than one cut was examined; distinct = distinct (start type and kind | string, multiset of fired fault kinds) among non-trivial runs.",
 		assumptions: []string{"numbers are compared by their shortest decimal rendering (integers exactly), as go-cty documents for Equals since 1.9.0",
 			"infinite candidates are outside the oracle (an unbounded side is reported as open towards infinity)",
 			"the state of a builder after a rejected (panicking) call is unspecified: the history continues from the last snapshot"},
